@@ -139,21 +139,32 @@ def run_login_race(case):
     from ..kit.noise_server import NoiseServer
     out = Outcome()
     server = NoiseServer()
-    cfg = Config(phone="4915112345", cc="49", client_static_keypair=KeyPair.generate(),
-                 server_static_public=PublicKey(bytes(server.s.public.data)))
+    write_fails = bool(case.get("profile_write_fails"))
+    if write_fails:
+        # first contact: the server's key is learnt during the handshake and stored in the profile - and the profile cannot be
+        # written (read-only directory, disk full).  The failure site is the noise layer, at the moment the session is established
+        cfg = Config(phone="4915112345", cc="49", client_static_keypair=KeyPair.generate())
+    else:
+        cfg = Config(phone="4915112345", cc="49", client_static_keypair=KeyPair.generate(),
+                     server_static_public=PublicKey(bytes(server.s.public.data)))
     rig = TR.Rig(choices=case.get("choices", ()), config=cfg, server=server, preempt=case.get("preempt"))
     try:
         n = case["frames"]
         k = max(1, min(case["coalesced"], n))
-        out.label("variant=core", "fault=raise_at_login", "frames=%d" % n, "coalesced=%d" % k)
+        out.label("variant=core", "fault=" + ("profile_write_fails_at_login" if write_fails else "raise_at_login"), "frames=%d" % n, "coalesced=%d" % k)
         top = rig.top
         state = {"raised": False}
         orig_top = top.receive
+        if write_fails:
+            def _wc(c):
+                state["raised"] = True
+                raise Injected("profile cannot be written")
+            rig.profile.write_config = _wc
 
         later_chunks = []
 
         def top_receive(node):
-            if not state["raised"] and getattr(node, "tag", None) == "receipt":
+            if not write_fails and not state["raised"] and getattr(node, "tag", None) == "receipt":
                 state["raised"] = True
                 if case.get("overlap") and later_chunks:
                     # the further reads arrive while this callback is still running (it takes its time, then fails)
@@ -182,11 +193,21 @@ def run_login_race(case):
         except TR.ProtocolViolation as e:
             out.fail("login", "login_race:server_rejects_client_bytes", {"problem": str(e)})
             return out
+        if write_fails:
+            # (first contact takes a second round: server hello -> client finish.)  The server answers at once: its first stanzas
+            # are on their way while the client's handshake thread is still taking its last steps; which thread is first is
+            # the schedule's choice
+            rig.eager_frames = [R.encode(in_stanza("receipt", "early-%d" % i)) for i in range(n)]
+            rig.deliver(bytes(server.take_out()))
+            rig.run()
+            if rig.eager_problems or not rig.eager_sent:
+                out.fail("login", "login_race:server_rejects_client_bytes", {"problem": str(rig.eager_problems[:1])})
+                return out
         if server.state != "transport":
-            raise HarnessError("the responder double did not reach transport state after an IK client hello")
+            raise HarnessError("the responder double did not reach transport state after the client's handshake messages")
         first = bytes(server.take_out())
         chunks = []
-        for i in range(n):
+        for i in range(0 if write_fails else n):
             server.send_frame(R.encode(in_stanza("receipt", "early-%d" % i)))
             f = bytes(server.take_out())
             if i < k:
@@ -203,7 +224,7 @@ def run_login_race(case):
                 rig.deliver(ch)
             rig.run()
             out.label("reads_overlap_the_failing_callback")
-        else:
+        elif not write_fails:
             for ch in [first] + chunks:
                 rig.deliver(ch)
             rig.run()
@@ -240,11 +261,19 @@ def run_login_race(case):
                     return out
         if overlap:
             out.label("read_on_network_thread_after_session_established")
+        if write_fails:
+            # nothing the application does failed: whatever the server sent behind its handshake reply is with the application now -
+            # not only once further traffic happens to arrive (a server that waits for the client's first request sends none)
+            missing = [i for i in range(n) if "early-%d" % i not in got]
+            if missing:
+                out.fail("delivery", "login_race:frames_received_with_the_handshake_reply_held_back_after_a_failed_profile_write",
+                         {"missing": missing, "coalesced": k, "delivered": got})
+                return out
         # one more incoming stanza: everything except the failed one has arrived, in order, once
         server.send_frame(R.encode(in_stanza("receipt", "later")))
         rig.shuttle()
         got = _got_ids(rig, "core")
-        expected = ["early-%d" % i for i in range(1, n)] + ["later"]
+        expected = ["early-%d" % i for i in range(0 if write_fails else 1, n)] + ["later"]
         if [g for g in got if g in expected] != expected:
             out.fail("delivery", "login_race:incoming_lost_or_out_of_order", {"delivered": got, "expected": expected})
             return out
@@ -387,6 +416,16 @@ def run_socket_dispatcher(case):
             if len(sk.wire) != wire_before:
                 out.fail("wedged", "socket_dispatcher:written_to_a_closed_connection", {"connection": ci + 1})
                 return out
+            if ci < len(case.get("disconnect_after", [])) and case["disconnect_after"][ci]:
+                # recovery code that closes before it reconnects (disconnect(); connect()), a keep-alive giving up, the login layer
+                # reacting to a failure: a disconnect request for the connection that is already gone
+                try:
+                    stack.broadcastEvent(YowLayerEvent(YowNetworkLayer.EVENT_STATE_DISCONNECT, reason="recovery"))
+                except Exception as e:
+                    out.fail("wedged", "socket_dispatcher:disconnect_request_after_the_end_raises:%s" % type(e).__name__, {"connection": ci + 1, "error": repr(e)[:200]})
+                    return out
+                stackkit.drain_detached(stack)
+                out.label("disconnect_request_for_a_connection_that_is_gone")
         out.info = {"nt": any(any(c) for c in case["connections"][:-1])}
         return out
     finally:
@@ -840,6 +879,10 @@ def login_race_strategy():
                 "choices": draw(st.lists(st.integers(0, 7), min_size=0, max_size=draw(st.sampled_from([0, 0, 40, 200]))))}
         if not case["choices"]:
             case["preempt"] = draw(st.lists(st.tuples(st.integers(0, 600), st.integers(0, 3)).map(list), min_size=0, max_size=3))
+        if draw(st.integers(0, 3)) == 0:
+            case["profile_write_fails"] = True
+            case["overlap"] = False
+            case["tasks"] = []
         return case
     return build()
 
@@ -848,6 +891,16 @@ def _enum_login_race():
     for n, k in ((2, 1), (3, 1), (3, 2), (3, 3), (4, 1)):
         for overlap in (False, True):
             yield {"sub": "login_race", "frames": n, "coalesced": k, "overlap": overlap, "choices": []}
+
+
+def _enum_profile_write_fault():
+    """first contact, the profile cannot be written when the session is established, the server's first stanzas are already on
+    their way: one preemption at every yield point"""
+    base = {"sub": "login_race", "frames": 2, "coalesced": 1, "choices": [], "profile_write_fails": True, "tasks": []}
+    yield dict(base)
+    for k in range(0, 300):
+        for sel in (0, 1, 2):
+            yield dict(base, preempt=[[k, sel]])
 
 
 def _enum_key_fetch_fault():
@@ -861,12 +914,16 @@ def plan(tier):
     kff = st.builds(lambda p, r, n: {"sub": "key_fetch_fault", "policies": p, "reconnect": r, "later": n},
                     st.lists(st.sampled_from(["error", "drop"]), min_size=1, max_size=3), st.booleans(), st.integers(1, 3))
     how = st.sampled_from([None, None, None, "ValueError", "KeyError", "handler", "AttributeError", "OSError"])
-    sockd = st.lists(st.lists(how, min_size=0, max_size=5), min_size=2, max_size=4).map(lambda cs: {"sub": "socket_dispatcher", "connections": cs, "tasks": []})
+    sockd = st.tuples(st.lists(st.lists(how, min_size=0, max_size=5), min_size=2, max_size=4), st.lists(st.booleans(), min_size=0, max_size=4)).map(
+        lambda t: {"sub": "socket_dispatcher", "connections": t[0], "disconnect_after": t[1], "tasks": []})
     return {
         "shards": 16,
         "enumerations": [("every_site", _enum_sites), ("login_race_basic", _enum_login_race), ("key_fetch_fault_basic", _enum_key_fetch_fault),
-                         ("socket_dispatcher_basic", lambda: iter([{"sub": "socket_dispatcher", "tasks": [], "connections": [[None, h, None], [None], [h], [None, None]]}
-                                                                   for h in ("ValueError", "KeyError", "handler", "AttributeError", "OSError")]))],
+                         ("profile_write_fault_sweep", _enum_profile_write_fault),
+                         ("socket_dispatcher_basic", lambda: iter([{"sub": "socket_dispatcher", "tasks": [], "connections": [[None, h, None], [None], [h], [None, None]],
+                                                                    "disconnect_after": da}
+                                                                   for h in ("ValueError", "KeyError", "handler", "AttributeError", "OSError")
+                                                                   for da in ([], [True, False, True])]))],
         "exhaustive": ["every_site"],
         "strategies": [("faults", case_strategy(), 60 if quick else 4000), ("login_race", login_race_strategy(), 30 if quick else 2000),
                        ("key_fetch_fault", kff, 16 if quick else 300), ("socket_dispatcher", sockd, 40 if quick else 3000)],
